@@ -105,7 +105,7 @@ DERIVS = {
     'MOLLI': {'a': 'molli_d_a', 'c': 'molli_d_c', 't1': 'molli_d_t1'},
     'TSS': {'m0': 'tss_d_m0', 't1': 'tss_d_t1', 'flip_angle': 'tss_d_fa'},
     'WASABI': {'b0_shift': 'wasabi_d_b0', 'relative_b1': 'wasabi_d_rb1', 'c': 'wasabi_d_c', 'd': 'wasabi_d_d'},
-    'WASABITI': {'t1': 'wasabiti_d_t1'},
+    'WASABITI': {'b0_shift': 'wasabiti_d_b0', 'rb1': 'wasabiti_d_rb1', 't1': 'wasabiti_d_t1'},
 }
 # value ranges (lo, hi, denominator): dyadic, on the physical domain of each model
 RANGES = {
@@ -140,6 +140,9 @@ def gen_models(rng, tier):
             kind = 'grad' if grad else rng.choice(['scalar', 'map', 'map', 'broadcast', 'broadcast', 'time_nd', 'lowrank_first'])
             rank = 0 if kind == 'scalar' else rng.randint(1, 3)
             pshape = [rng.randint(1, 3) for _ in range(rank)]
+            if name == 'TSS' and not grad and kind in ('map', 'broadcast', 'time_nd'):
+                rank = rng.randint(2, 3)
+                pshape = rng.sample([1, 2, 3], rank) if rank == 3 else rng.sample([2, 3], 2)
             while int(np.prod(pshape)) > (4 if grad else 8):
                 pshape[rng.randrange(rank)] = 1
             T = rng.randint(1, 2 if grad else 3)
@@ -165,9 +168,9 @@ def gen_models(rng, tier):
             for a in attrs:
                 if a in timelike:
                     c['attrs'][a] = rand_array(rng, [T, *ts], rg[a])
-                elif a in SEQ_PARAMS.get(name, []) and rank and not grad and rng.random() < 0.6:
-                    j = rng.randint(1, rank)  # per-voxel sequence parameter: leading dims of the parameter maps
-                    c['attrs'][a] = rand_array(rng, [d if rng.random() < 0.7 else 1 for d in pshape[:j]], rg[a])
+                elif a in SEQ_PARAMS.get(name, []) and rank and not grad and rng.random() < 0.7:
+                    j = rng.randint(1, max(1, rank - 1))  # per-voxel sequence parameter: LEADING dims of the parameter maps
+                    c['attrs'][a] = rand_array(rng, [d if rng.random() < 0.8 else 1 for d in pshape[:j]], rg[a])
                 else:
                     c['attrs'][a] = dy(rng, *rg[a])
             cases.append(c)
@@ -210,8 +213,8 @@ def impl_models(c):
         T = y.shape[0]
         for t in range(T):
             gs = torch.autograd.grad(y[t].sum(), params, retain_graph=True, allow_unused=True)
-            for p, g in zip(MODELS[c['model']][2], gs):
-                grads.setdefault(p, []).append([fin(v) for v in (g if g is not None else torch.zeros(())).flatten().tolist()])
+            for p, q, g in zip(MODELS[c['model']][2], params, gs):
+                grads.setdefault(p, []).append([fin(v) for v in (g if g is not None else torch.zeros_like(q)).flatten().tolist()])
         obs['grads'] = grads
         # central finite differences of the implementation itself (oracle for autograd)
         fd = {}
@@ -324,8 +327,7 @@ def oracle_models(c, o):
 def descr_models(c):
     r0 = np.array(c['params'][MODELS[c['model']][2][0]]).ndim
     return {'model': c['model'], 'kind': c['kind'], 'grad': c['grad'],
-            'first_param_lower_rank': r0 < max(np.array(v).ndim for v in c['params'].values()),
-            'tss_scalar_first_param': c['model'] == 'TSS' and r0 == 0}
+            'first_param_lower_rank': r0 < max(np.array(v).ndim for v in c['params'].values())}
 
 
 # ------------------------------------------------------------------------------------------------
@@ -333,7 +335,7 @@ def descr_models(c):
 def gen_shape(rng, tier):
     cases = []
     for _ in range(50 if tier == 'quick' else 1000):
-        name = rng.choice(list(MODELS))
+        name = rng.choice(list(MODELS) + ['TSS', 'TSS', 'TSS'])
         rank = rng.randint(0, 4)
         pshape = [rng.randint(1, 3) for _ in range(rank)]
         p0 = [d if rng.random() < 0.8 else 1 for d in pshape]
@@ -348,11 +350,12 @@ def gen_shape(rng, tier):
             ts = [rng.randint(1, 3) for _ in range(k)]            # possibly incompatible trailing dims
         else:
             ts = [rng.randint(1, 3) for _ in range(rank + rng.randint(1, 2))]  # more time dims than parameter dims
-        seq = None
-        if name == 'TSS' and rank and rng.random() < 0.6:
+        seq, seq_attr = None, None
+        if name == 'TSS' and rank and rng.random() < 0.75:
             j = rng.randint(0, rank)
             seq = [d if rng.random() < 0.7 else 1 for d in pshape[:j]]
-        cases.append({'model': name, 'p0shape': p0, 'pshape': pshape, 'tshape': [T, *ts], 'seq': seq})
+            seq_attr = rng.choice(SEQ_PARAMS['TSS'])
+        cases.append({'model': name, 'p0shape': p0, 'pshape': pshape, 'tshape': [T, *ts], 'seq': seq, 'seq_attr': seq_attr})
     return cases
 
 
@@ -363,7 +366,7 @@ def impl_shape(c):
     for a in attrs:
         if a in timelike:
             kw[a] = torch.ones(c['tshape'], dtype=torch.float64)
-        elif c['seq'] is not None and a == 'repetition_time':
+        elif c['seq'] is not None and a == c.get('seq_attr', 'repetition_time'):
             kw[a] = torch.ones(c['seq'], dtype=torch.float64)
         else:
             kw[a] = torch.tensor(1.0, dtype=torch.float64)
@@ -389,7 +392,7 @@ def cmp_shape(c, o, m):
         if isinstance(o, dict):
             return f'model gives {args[0]}, implementation raises {o.get("raises")} {o.get("msg", "")[:80]}'
         return None if args[0] == o else f'model {args[0]} impl {o}'
-    want = {'BroadcastError': 'RuntimeError', 'ReshapeTypeError': 'TypeError'}[tag]
+    want = {'BroadcastError': 'RuntimeError'}[tag]
     if isinstance(o, dict) and o.get('raises') == want:
         return None
     return f'model predicts {want}, implementation gives {o}'
@@ -414,8 +417,7 @@ def oracle_shape(c, o):
 
 
 def descr_shape(c):
-    return {'model': c['model'], 'first_param_lower_rank': len(c['p0shape']) < len(c['pshape']),
-            'tss_scalar_first_param': c['model'] == 'TSS' and len(c['p0shape']) == 0}
+    return {'model': c['model'], 'first_param_lower_rank': len(c['p0shape']) < len(c['pshape'])}
 
 
 # ------------------------------------------------------------------------------------------------
@@ -523,7 +525,7 @@ def descr_constraints(c):
 FAMILIES = [
     Family('model_shape', gen_shape, impl_shape, coq_shape, PREAMBLE_SHAPE, cmp_shape, oracle_shape,
            nontrivial=lambda c: len(c['pshape']) > 0, descr=descr_shape,
-           theorem='C17_shape_impl_partial, C17_shape, C17_shape_first_param_rank_refuted, C17_shape_scalar_seqparam_refuted'),
+           theorem='C17_shape_impl_partial, C17_shape_impl_seqparam_partial, C17_shape, C17_shape_first_param_rank_refuted'),
     Family('models', gen_models, impl_models, None, '', None, oracle_models, nontrivial=lambda c: len(c['pshape']) > 0,
            descr=descr_models, theorem='C17_model_eq_doc_*, C17_derivatives_* (interval lemmas in extra_checks)'),
     Family('constraints', gen_constraints, impl_constraints, None, '', None, oracle_constraints,
@@ -538,7 +540,10 @@ IV_PREAMBLE = '''From Coq Require Import Reals.
 From Interval Require Import Tactic.
 From MrVerif Require Import Model.SignalModels Model.Constraints Proofs.SignalModelsProofs.
 Open Scope R_scope.
-Ltac nosinc := cbv zeta; try (rewrite sinc_nz by (interval with (i_prec 60))).
+Ltac unf := cbv beta zeta delta [ir_code ir_d_m0 ir_d_t1 sr_code sr_d_m0 sr_d_t1 mono_code mono_d_m0 mono_d_tc molli_code molli_d_a
+  molli_d_c molli_d_t1 tss_code tss_d_m0 tss_d_t1 tss_d_fa wasabi_code wasabi_d_c wasabi_d_d wasabi_d_b0 wasabi_d_rb1 wasabiti_code
+  wasabiti_d_t1 wasabiti_d_b0 wasabiti_d_rb1].
+Ltac nosinc := unf; try (rewrite sinc_nz by (interval with (i_prec 60))).
 Ltac cfw := eexists; split; [reflexivity|]; unfold fwd_ab, fwd_lo, fwd_hi, inv_ab, inv_lo, inv_hi, sigmoid, sigmoid_inverse, softplus, softplus_inverse.
 '''
 IV = 'interval with (i_prec 80)'
@@ -582,7 +587,7 @@ def model_goals(c, o):
         if not math.isfinite(y) or singular(i):
             continue
         goals.append((f'value[{i}]', f'Goal Rabs ({app(fn + "_code", i)} - {rlit(y)}) <= {tol_lit(y)}.\n'
-                      f'Proof. unfold {fn}_code. nosinc. {IV}. Qed.'))
+                      f'Proof. nosinc. {IV}. Qed.'))
     if c['grad']:
         per = n // shp[0]
         for p, d in DERIVS[name].items():
@@ -594,7 +599,7 @@ def model_goals(c, o):
                     if not math.isfinite(g) or singular(i):
                         continue
                     goals.append((f'd/d{p}[{i}]', f'Goal Rabs ({app(d, i)} - {rlit(g)}) <= {tol_lit(g, 27)}.\n'
-                                  f'Proof. unfold {d}. nosinc. {IV}. Qed.'))
+                                  f'Proof. nosinc. {IV}. Qed.'))
     return goals
 
 
@@ -626,7 +631,7 @@ def run_interval_files(work, items, shard, maxpar):
 
     def start(tag, its, attempt):
         p = work / f'{tag}_{attempt}.v'
-        lines = IV_PREAMBLE.count('\n') + 1
+        lines = IV_PREAMBLE.count('\n') + 2   # the preamble ends with a newline and is joined with one more
         text = [IV_PREAMBLE]
         spans = []
         for meta, g in its:
